@@ -12,7 +12,9 @@ StdArg(s, l) == [s |-> s, l |-> l, pos |-> FALSE, mand |-> FALSE, hidden |-> FAL
 StdArgs(cfg) == (IF cfg.help THEN <<StdArg(104, <<104, 101, 108, 112>>)>> ELSE <<>>)
                 \o (IF cfg.usageshort THEN <<StdArg(0, <<104, 101, 108, 112, 45, 115, 104, 111, 114, 116>>)>> ELSE <<>>)
                 \o (IF cfg.usagelong THEN <<StdArg(0, <<104, 101, 108, 112, 45, 108, 111, 110, 103>>)>> ELSE <<>>)
+\* (an argument whose definition was refused - it has no key left in the effective configuration - is not an argument of the handler)
 Visible(cfg, cont, arg) ==
+   /\ (arg.s # 0 \/ Len(arg.l) > 0 \/ arg.pos)
    /\ (cfg.usagehidden \/ ~arg.hidden)
    /\ (cfg.usagedepr \/ ~arg.depr)
    /\ CASE cont = "short" -> arg.s # 0
